@@ -165,11 +165,6 @@ func (g *c6) num(e ast.Expr, want string) string {
 
 var c6cmp = map[token.Token]string{token.LSS: "<", token.GTR: ">", token.LEQ: "≤", token.GEQ: "≥", token.EQL: "=", token.NEQ: "≠"}
 
-func isNilIdent(e ast.Expr) bool {
-	id, ok := e.(*ast.Ident)
-	return ok && id.Name == "nil"
-}
-
 func (g *c6) cond(e ast.Expr) string {
 	switch x := e.(type) {
 	case *ast.ParenExpr:
@@ -184,7 +179,7 @@ func (g *c6) cond(e ast.Expr) string {
 			if v, ok := g.errValue(x.Args[0]); ok {
 				switch exprString(x.Args[1]) {
 				case "object.ErrKeyNotPresent":
-					return "Go.errIs " + v + " Obj.Err.absent"
+					return "Go.errIsOpt " + v + " Obj.Err.absent"
 				}
 			}
 		}
